@@ -423,12 +423,16 @@ def work(args):
     out = []
     for i in idxs:
         desc, label, cls, obj = objs[i]
-        if what == 'block':
-            n, fails = check_block(desc, label, cls, obj)
-            out.append((i, n, 0, fails, {}))
-        else:
-            n, harmless, fails, how = check_corruption(desc, label, cls, obj, 3 if tier == 'quick' else 5)
-            out.append((i, n, harmless, fails, dict(how)))
+        try:
+            if what == 'block':
+                n, fails = check_block(desc, label, cls, obj)
+                out.append((i, n, 0, fails, {}))
+            else:
+                n, harmless, fails, how = check_corruption(desc, label, cls, obj, 3 if tier == 'quick' else 5)
+                out.append((i, n, harmless, fails, dict(how)))
+        except Exception as ex:
+            out.append((i, 1, 0, [dict(desc, clause='harness', **{'class': what, 'detail': 'harness error: %s: %s'
+                                                                  % (type(ex).__name__, str(ex)[:80])})], {}))
     return out
 
 
